@@ -114,6 +114,13 @@ def objOffsets : Nat → List (Option Nat × Option Nat) → List Nat → Out (L
   | n + 1, (some _, some off) :: rest, acc => objOffsets n rest (off :: acc)
   | _ + 1, _ :: _, _ => .err
 
+/-- the end of member `index`: the end of the data for the last member, else the next position -/
+def objStop (bits : Nat) (fixed : Bool) (first : Nat) (offsets : List Nat) (index dataLen : Nat) : Out Nat :=
+  if index = offsets.length - 1 then .ok dataLen else
+  match offsets[index + 1]? with
+  | none => .panic   -- unreachable for index < offsets.length
+  | some o2 => if !(fits bits (first + o2)) then (if fixed then .err else .panic) else .ok (first + o2)
+
 /-- `get_object_slice(index)` followed by `data.get(range)`: the byte range of member `index` -/
 def objSlice (bits : Nat) (fixed : Bool) (first : Nat) (offsets : List Nat) (index dataLen : Nat) : Out (Nat × Nat) :=
   if index ≥ offsets.length then .err else
@@ -121,14 +128,8 @@ def objSlice (bits : Nat) (fixed : Bool) (first : Nat) (offsets : List Nat) (ind
   | none => .panic   -- unreachable: guarded by the test above
   | some o =>
     if !(fits bits (first + o)) then (if fixed then .err else .panic) else
-    let start := first + o
-    let stop : Out Nat :=
-      if index = offsets.length - 1 then .ok dataLen else
-      match offsets[index + 1]? with
-      | none => .panic   -- unreachable
-      | some o2 => if !(fits bits (first + o2)) then (if fixed then .err else .panic) else .ok (first + o2)
-    match stop with
-    | .ok e => if start ≤ e ∧ e ≤ dataLen then .ok (start, e) else .err
+    match objStop bits fixed first offsets index dataLen with
+    | .ok e => if first + o ≤ e ∧ e ≤ dataLen then .ok (first + o, e) else .err
     | .err => .err | .panic => .panic | .oof => .oof
 
 -- ---------------------------------------------------------------------------------------------------
